@@ -50,8 +50,8 @@ _STD = ('std / dependency contracts assumed by the Verus proofs (listed per grou
 PROPS = {
     'C01': dict(level='proof', groups=['parse', 'fmt', 'inverse', 'c01', 'ckfix', 'builder', 'purl', 'cksum', 'lib_shape', 'pkgtype'], kani=ESC, bounded=['tokens:C01', 'scale:C01', 'spell:C01', 'format:C01'] + A,
         explanation='THEOREM (group c01, theorem_c01_plain): for every type parameter that behaves like the built-in string shapes (conversion total and faithful -- std; hook = shape_rel -- proved in lib_shape), every string s and every value g that parse_post allows for s: parse_post applied to canon_spec(g) allows only Ok values, with the same type text and the same field texts, whose canon_spec is the same string. Together with from_str == parse_post (group parse) and Display::fmt == canon_spec (group fmt) this is C01 for the type-agnostic PURL, for all strings (a checksum qualifier is handled through theorem_checksum_rebuild, group ckfix). theorem_c01_typed: the same for the PackageType instance (conversion = the name-table contract proved in pkgtype, hook = pkg_finish_rel proved in pkgtype; name rules idempotent, names injective). What is left to assumptions: std / dependency contracts (section 9 of DESIGN.md), `==` on GenericPurl being equality of the type and of the texts (derive semantics + the verified QualifierKey::eq), String::from_str being the identity. The bounded suites remain as a cross-check on the compiled code. Pieces: Proved for all strings (Verus): from_str == parse_post (the parser as a specification function written from the statement), Display::fmt == canon_spec, build() canonicalises; complete on a finite domain (Kani): every byte of every escape set through the real encoder. ALSO proved (group inverse, 100 lemmas): the inverse direction at the specification level -- for a valid type and normalised parts (what build() and the decoders guarantee), phase_a(canon_spec(ty, p)) and phase_b return exactly ty and the parts (lemma_parse_canon), from a per-character definition of percent-encoding and the assumed dec(enc(s)) = s. The end-to-end statement is also cross-checked BOUNDED on the compiled code: every accepted string of the token language T_N and of the spelling domain S is printed, re-parsed, compared and printed again, for String, SmallString and PackageType.'),
-    'C02': dict(level='other', groups=['parse', 'parse_seg', 'lib_shape', 'qual', 'cksum'], kani=['type_char', 'key_char'], bounded=['spell:C02', 'tokens:C02', 'scale:C02'] + A,
-        explanation="Proved for all strings (Verus): from_str == parse_post -- designated separators taken right to left (last '#', last '?', first '/', last '@', last '/'), each component routed to its decoder; decode_subpath / decode_namespace / decode_qualifiers equal their fold specifications; type and key legality and lower-casing; checksum text. BOUNDED: that every permitted spelling of a tuple is mapped to the tuple by these specification functions -- exhaustive tuples x spelling freedoms (S) and every T_N string against an independent reference parser, on the real code."),
+    'C02': dict(level='proof', groups=['parse', 'parse_seg', 'lib_shape', 'qual', 'cksum', 'c02', 'pkgtype', 'builder', 'ckfix'], kani=['type_char', 'key_char'], bounded=['spell:C02', 'tokens:C02', 'scale:C02'] + A,
+        explanation="THEOREMS (group c02): a *spelling* is a record of the freedoms the statement lists -- extra '/' after pkg:, the type in any letter case, the namespace as '/'-separated pieces (an empty piece is an extra '/', any other piece ANY text whose percent-decoding is a segment), name and version any text that decodes, qualifier items in ANY order with keys in any letter case and empty-valued items interleaved, subpath pieces with '', '.' and '..' skipped, raw '@' / '?' / '#' anywhere to the left of the separator that right-to-left splitting designates (raw_ok). theorem_raw_phase_a / _b: on the string assembled from ANY raw texts obeying that discipline the two parser phases hand each text unchanged to its decoder (this pins which occurrence is the separator). lemma_ns_spelled / lemma_sub_spelled / lemma_dq_spelled: the decoders return the '/'-join of the decoded segments, resp. the strictly ascending list of exactly the written non-empty pairs with lower-cased keys whatever the order of the items. theorem_c02_plain (every type parameter that behaves like the built-in string shapes) and theorem_c02_typed (PackageType: type t accepted in any letter case, name after the type's own rule, Maven with a namespace): whatever parse_post allows for a permitted spelling is Ok with exactly the denoted components, a written checksum in its canonical text. theorem_c02_same_plain / _typed: two spellings of the same components (checksum entries up to order and letter case: theorem_checksum_spellings, group ckfix) give the same type, the same field texts and the identical canonical string. Non-vacuity: lemma_c02_witness PROVES spelling_ok for the concrete spelling pkg://N//o/n@1?B=x&a=#./s; four vacuity guards. With from_str == parse_post (group parse) this is C02 for all tuples and all spellings. Restriction stated in items_ok: the keys of ALL written items, empty-valued ones included, are pairwise different ignoring case (the parser refuses an empty-valued item that repeats an earlier key). Percent-decoding itself (raw or escaped, either hex case, raw UTF-8) is the dependency function dec. Pieces: Proved for all strings (Verus): from_str == parse_post -- designated separators taken right to left (last '#', last '?', first '/', last '@', last '/'), each component routed to its decoder; decode_subpath / decode_namespace / decode_qualifiers equal their fold specifications; type and key legality and lower-casing; checksum text. BOUNDED: that every permitted spelling of a tuple is mapped to the tuple by these specification functions -- exhaustive tuples x spelling freedoms (S) and every T_N string against an independent reference parser, on the real code."),
     'C03': dict(level='proof', groups=['fmt', 'qual', 'purl', 'pkgtype', 'inverse', 'c01'], kani=ESC, bounded=['format:C03', 'tokens:C03', 'scale:C03', 'spell:C03', 'qualmap', 'preds', 'shapes'] + A,
         explanation='Proved (Verus): on Ok, the output of Display::fmt is exactly canon_spec(type, parts) = pkg: type / [namespace /] name [@ version] [? k=v & ...] [# subpath] with absent parts omitted, pairs in storage order; storage order is strictly ascending after every verified mutator; accessors map empty to None; the documented panic is the precondition. Complete (Kani): every byte of every escape set, upper-case hex. THEOREMS (group inverse, c03.rs): theorem_c03_printable -- canon_spec of a valid type text and ANY parts is printable ASCII (0x21..0x7E); theorem_c03_separators -- no encoded component contains a raw separator of its position (@ ? # in namespace / name / version, / in the name, & + # ? in a qualifier value, # ? in the subpath), and the right-to-left splitting finds exactly the written separators (lemma_parse_canon_gen). The type text of handed-out values is lower-case (handed_out lemmas, group c01). Assumed: utf8_percent_encode applies the per-byte table (proved by Kani on the real constants) character by character (A), Vec::retain keeps the order. CROSS-CHECK (bounded, compiled code): an independent renderer on every Unicode scalar value in every component position, all ASCII pairs, T_N, S, SCALE, and the map exploration.'),
     'C04': dict(level='proof', groups=['builder', 'parse', 'lib_shape', 'qual', 'pkgtype', 'cksum', 'purl', 'ckfix', 'c01'], kani=['type_char', 'key_char'], bounded=['tokens:C04', 'scale:C04', 'builder', 'protocol', 'preds', 'checksum', 'qualmap'] + A,
@@ -104,7 +104,7 @@ PROPS = {
                     'BOUNDED: values that are not normalised (builder-made namespaces with empty segments etc.) and the end-to-end statement on the compiled code: all pairs of a near-collision corpus, parsed and built, String and PackageType.'),
 }
 
-ALL_GROUPS = ['lib_lower', 'lib_shape', 'pkgtype', 'qual', 'builder', 'purl', 'parse_seg', 'cksum', 'fmt', 'parse', 'inverse', 'serde', 'c01', 'ckfix', 'c14']
+ALL_GROUPS = ['lib_lower', 'lib_shape', 'pkgtype', 'qual', 'builder', 'purl', 'parse_seg', 'cksum', 'fmt', 'parse', 'inverse', 'serde', 'c01', 'ckfix', 'c14', 'c02']
 
 
 def _auto_groups():
@@ -134,6 +134,7 @@ _CONV = 'String::from_str / From<&str> for the built-in string shapes accept eve
 _PHF = 'the phf / unicase lookup of PACKAGE_TYPES hits exactly the entry equal to the probe up to ASCII case'
 _EXTRA_TRUSTED = {
     'C01': [_ENC, _CONV, _PHF, _LOWER, _DERIVE, _RETAIN, 'hex characters: is_ascii_hexdigit / to_ascii_lowercase (A)'],
+    'C02': [_ENC, _CONV, _PHF, _LOWER, _RETAIN, 'percent-decoding (dec) is the dependency function: which texts decode to which characters is not restated'],
     'C03': [_ENC, _RETAIN, 'Display::fmt of GenericPurl is the hoisted purl_fmt (R2); write! with {}-only literals writes its pieces in source order'],
     'C04': [_RETAIN, _HOOK, _LOWER, 'HashMap wrappers of Checksum (with_capacity / insert / get / into_iter().collect() in ARBITRARY order)'],
     'C08': [_PHF, _LOWER, _RETAIN],
